@@ -243,7 +243,7 @@ def run(prop, tier, replay=None):
         for need in ("Enter", "Restart", "Healthy", "Done", "SawCancel", "Fault", "Exit:ctxErr", "Kill"):
             if model_events[need] == 0:
                 raise vlib.Broken("vacuous model simulation: no %s in %d TLC behaviours" % (need, len(tlc_scs)))
-        scs = fs.fixed_scenarios() + fs.orphan_scenarios() + fs.linger_scenarios(seed, LINGER[tier]) + fs.done_linger_sibling_scenarios(seed, LINGER[tier]) + tlc_scs + fs.gen_scenarios(seed, ngen)
+        scs = fs.fixed_scenarios() + fs.orphan_scenarios() + fs.linger_scenarios(seed, LINGER[tier]) + fs.done_linger_sibling_scenarios(seed, LINGER[tier]) + fs.simultaneous_scenarios(seed, 2 * LINGER[tier]) + tlc_scs + fs.gen_scenarios(seed, ngen)
         batches = [("main", [s for s in scs if not fs.risky(s)]), ("risky", [s for s in scs if fs.risky(s)]),
                    ("race", fs.done_race_scenarios(nrace))]
     nid = 0
